@@ -277,3 +277,110 @@ def work_reuse(task):
 def tasks_reuse():
     cfgs = reuse_configs()
     return [{"cfgs": cfgs[i::16]} for i in range(16)]
+
+
+# ---------------------------------------------------------------------------
+# part "versioned": a scheme that flags its own old format version (bcrypt_sha256 v1 / v2)
+# ---------------------------------------------------------------------------
+def versioned_configs():
+    out = []
+    for L in (["bcrypt_sha256", "md5_crypt"], ["md5_crypt", "bcrypt_sha256"], ["bcrypt_sha256"]):
+        for ver in (None, 1, 2, "1"):
+            for admin in (None, 1, 2):
+                for dep in (None, ["md5_crypt"]):
+                    if dep and ("md5_crypt" not in L or L[0] == "md5_crypt"):
+                        continue
+                    for via in ("ctor", "copy", "update"):
+                        out.append({"schemes": L, "version": ver, "admin_version": admin, "deprecated": dep, "via": via})
+    return out
+
+
+def eval_versioned(cfg):
+    from passlib.context import CryptContext
+
+    B = "bcrypt_sha256"
+    out = []
+    key = "C04|bcrypt_sha256|versioned:"
+    kw = {"schemes": cfg["schemes"], f"{B}__rounds": 4}
+    opts = {}
+    if cfg["version"] is not None:
+        opts[f"{B}__version"] = cfg["version"]
+    if cfg["admin_version"] is not None:
+        opts[f"admin__{B}__version"] = cfg["admin_version"]
+    if cfg["deprecated"]:
+        opts["deprecated"] = cfg["deprecated"]
+    try:
+        if cfg["via"] == "ctor":
+            ctx = CryptContext(**kw, **opts)
+        elif cfg["via"] == "copy":
+            ctx = CryptContext(**kw).copy(**opts)
+        else:
+            ctx = CryptContext(**kw)
+            ctx.update(**opts)
+    except Exception as e:  # noqa: BLE001
+        return [(key + f"valid_config_refused:{type(e).__name__}", f"{cfg!r} raised {e!r}")]
+    H = HS.handler(B)
+    stored = {1: H.using(version=1, rounds=4, ident="2b").hash(PW), 2: H.using(version=2, rounds=4).hash(PW)}
+    default = cfg["schemes"][0]
+    depset = set(cfg["deprecated"] or ())
+    for category in (None, "admin"):
+        want_ver = int(cfg["version"] or 2)
+        if category == "admin" and cfg["admin_version"] is not None:
+            want_ver = int(cfg["admin_version"])
+        ck = {"category": category} if category else {}
+        where = f"{cfg!r} category={category} (configured version {want_ver})"
+        try:
+            for v, h in stored.items():
+                want = v < want_ver
+                nu = ctx.needs_update(h, **ck)
+                if bool(nu) != want:
+                    out.append((key + f"needs_update:{'missed' if want else 'spurious'}", f"{where}: needs_update(<v{v} hash>) = {nu!r}, expected {want}"))
+                ok, new = ctx.verify_and_update(PW, h, **ck)
+                if ok is not True or (new is not None) != want:
+                    out.append((key + "verify_and_update:rehash_decision", f"{where}: verify_and_update(<v{v} hash>) = ({ok!r}, {'new' if new else None}), expected rehash = {want}"))
+                if new is not None and ctx.needs_update(new, **ck):
+                    out.append((key + "verify_and_update:new_needs_update", f"{where}: the replacement {new!r} is itself flagged"))
+            fresh = ctx.hash(PW, **ck)
+            if ctx.needs_update(fresh, **ck):
+                out.append((key + "hash:fresh_needs_update", f"{where}: a hash the context has just made ({fresh!r}) needs an update"))
+            ok, new = ctx.verify_and_update(PW, fresh, **ck)
+            if ok is not True or new is not None:
+                out.append((key + "hash:fresh_rehashed", f"{where}: verify_and_update of a fresh hash returned ({ok!r}, {'new' if new else None})"))
+            if default == B:
+                got_ver = H.from_string(fresh).version
+                if got_ver != want_ver:
+                    out.append((key + "hash:version", f"{where}: fresh hash has version {got_ver}"))
+            h5 = HS.handler("md5_crypt").hash(PW) if "md5_crypt" in cfg["schemes"] else None
+            if h5 and bool(ctx.needs_update(h5, **ck)) != ("md5_crypt" in depset):
+                out.append((key + "other_scheme", f"{where}: needs_update(<md5_crypt hash>) does not follow the deprecated list {sorted(depset)}"))
+        except Exception as e:  # noqa: BLE001
+            out.append((key + f"raises:{type(e).__name__}", f"{where}: raised {e!r}"))
+    return out
+
+
+_replay_reuse = replay
+
+
+def replay(case):  # noqa: F811
+    if case.get("part") == "versioned":
+        return eval_versioned(case["cfg"])
+    return _replay_reuse(case)
+
+
+def work_versioned(task):
+    acc = Acc()
+    for cfg in task["cfgs"]:
+        acc.ev()
+        acc.cls("versioned", ",".join(cfg["schemes"]), cfg["version"], cfg["admin_version"], cfg["deprecated"], cfg["via"])
+        vs = eval_versioned(cfg)
+        acc.outcome(("versioned", "viol" if vs else "ok"))
+        for key, desc in vs:
+            acc.violation(key, desc, {"part": "versioned", "cfg": cfg})
+    return acc
+
+
+def tasks_versioned():
+    if not HS.usable("bcrypt_sha256"):
+        return []
+    cfgs = versioned_configs()
+    return [{"cfgs": cfgs[i::16]} for i in range(16)]
